@@ -114,6 +114,9 @@ class SExpr(Model):
             return Builtin('Expr.atoms', lambda it_, a, k: SAtoms(self.term, a))
         if name == 'is_real':
             return True
+        if name == 'ID':
+            # a sympy expression is not an ODEVariable
+            raise PyRaise(ExcVal('AttributeError', ("sympy object has no attribute 'ID'",)))
         raise Unsupported("sympy expression attribute %s" % name)
 
     def py_str(self, it):
